@@ -66,27 +66,29 @@ C13_Holds(cs) ==
 
 (* -------------------------- C16 / C07: dicts ---------------------------- *)
 \* key / value pools; texts are listed in byte order in KeyOrder so that the model can sort
-KeyPool == {"a", "ab", "a1", "1", "f1", "f2", "qx", "qy", "null"}
+KeyPool == {"a", "ab", "a1", "1", "10", "9", "f1", "f2", "qx", "qy", "null"}
 ValPool == {"v1", "vq", "null"}
 KeyCode(k, i) ==
   CASE k = "a"    -> Stmt(<<Id("a")>>)
     [] k = "ab"   -> Stmt(<<Id("ab")>>)
     [] k = "a1"   -> Stmt(<<Id("a1")>>)
     [] k = "1"    -> Stmt(<<LitT("1")>>)
+    [] k = "10"   -> Stmt(<<LitT("10")>>)
+    [] k = "9"    -> Stmt(<<LitT("9")>>)
     [] k = "f1"   -> Stmt(<<Id("f"), Grp("call", <<>>)>>)
     [] k = "f2"   -> Stmt(<<Id("f"), Grp("call", <<>>)>>)      \* a second key with the same rendered text
     [] k = "qx"   -> Qual("x/d", "K")
     [] k = "qy"   -> Qual("y/d", "K")
     [] k = "null" -> Stmt(<<NullT>>)
 \* the value identifies its key (so that a value attached to another pair's key is visible)
-KeyNo(k) == CASE k = "a" -> "10" [] k = "ab" -> "11" [] k = "a1" -> "18" [] k = "1" -> "12" [] k = "f1" -> "13" [] k = "f2" -> "14"
-              [] k = "qx" -> "15" [] k = "qy" -> "16" [] k = "null" -> "17"
+KeyNo(k) == CASE k = "a" -> "710" [] k = "ab" -> "711" [] k = "a1" -> "718" [] k = "10" -> "719" [] k = "9" -> "720" [] k = "1" -> "712" [] k = "f1" -> "713" [] k = "f2" -> "714"
+              [] k = "qx" -> "715" [] k = "qy" -> "716" [] k = "null" -> "717"
 ValCode(v, k) ==
   CASE v = "v1"   -> Stmt(<<LitT(KeyNo(k))>>)
     [] v = "vq"   -> Qual("x/d", "V" \o KeyNo(k))
     [] v = "null" -> Stmt(<<NullT>>)
 \* byte order of every key text that can occur ("1" < "a" < "ab" < "d.K" < "d1.K" < "f ()"; statement items are joined by one blank)
-KeyOrder == <<"1", "a", "a1", "ab", "d.K", "d1.K", "f ()", "zz.K">>
+KeyOrder == <<"1", "10", "9", "a", "a1", "ab", "d.K", "d1.K", "f ()", "zz.K">>
 Rank(t) == CHOOSE i \in DOMAIN KeyOrder : KeyOrder[i] = t
 \* a dict case: pairs (sequence of <<key, val>> names, first-pass visiting order = sequence order)
 DictTree(pairs, order) == Stmt(<<Kw("var"), Id("_"), Op("="), Id("T"), Grp("values", <<Dict([i \in DOMAIN pairs |-> Pair(KeyCode(pairs[i][1], i), ValCode(pairs[i][2], pairs[i][1]))], order)>>)>>)
